@@ -27,6 +27,11 @@ fn verif_native_library_witness() {
         ("peek.sld", "(define-library (peek) (import (scheme base)) (export get-outer) (begin (define (get-outer) outer-secret)))"),
         ("uses.sld", "(define-library (uses) (import (scheme base)) (export call-helper) (begin (define (helper) 'library-helper) (define (call-helper) (helper))))"),
         ("bad.sld", "(define-library (bad) (import (scheme base)) (export missing) (begin (define present 1)))"),
+        ("store.sld", "(define-library (store) (import (scheme base)) (export get (rename get fetch) put!) (begin (define cell 0) (define (get) cell) (define (put! v) (set! cell v))))"),
+        ("split.sld", "(define-library (split) (import (scheme base)) (export (rename get fetch)) (begin (define (get) 7)) (export get) (export late) (begin (define late 3)))"),
+        ("twice.sld", "(define-library (twice) (import (scheme base)) (export a a (rename a b) (rename a c)) (begin (define a 5)))"),
+        ("inner.sld", "(define-library (inner) (import (scheme base)) (export inner-value) (begin (define inner-value 1) (define inner-private 2)))"),
+        ("outer.sld", "(define-library (outer) (import (scheme base) (inner)) (export outer-value) (begin (define outer-value (+ inner-value 10))))"),
     ]);
     let mut n = 0;
     let mut bad: Vec<String> = Vec::new();
@@ -45,6 +50,14 @@ fn verif_native_library_witness() {
     check(&["(import (peek))", "(get-outer)"], "error *", "a free name of a library is unbound");
     check(&["(import (uses))", "(define (helper) 'importer-helper)", "(call-helper)"], "value library-helper", "redefining a name in the importer does not change the library's own procedures");
     check(&["(import (bad))"], "error *", "exporting a name the library does not define is an error");
+    // one internal binding exported under several external names: every export spec contributes its external name
+    check(&["(import (store))", "(put! 5)", "(+ (get) (fetch))"], "value 10", "a binding exported directly and through rename is visible under both names");
+    check(&["(import (split))", "(+ (fetch) (get) late)"], "value 17", "export specs of several export declarations all count, also before/after the definition");
+    check(&["(import (twice))", "(+ a b c)"], "value 15", "a repeated export spec and two renames of one binding");
+    // what a library imports is not what it exports
+    check(&["(import (outer))", "outer-value"], "value 11", "a library uses what it imports");
+    check(&["(import (outer))", "inner-value"], "error *", "a library does not re-export what it imports");
+    check(&["(import (outer))", "inner-private"], "error *", "nor the private definitions of what it imports");
     // all imports of a library within one program refer to ONE instance (fix e409057): two importers of a counter library share the counter
     write_libs(&dir, &[
         ("cnt.sld", "(define-library (cnt) (import (scheme base)) (export next) (begin (define n 0) (define (next) (set! n (+ n 1)) n)))"),
